@@ -46,6 +46,7 @@ FAMILIES = {
     "cosmix": ([["cos", 0], ["exprate", 1], ["const"], ["lin"]], 2, (0.25, 1.5)),
     "poly": ([["poly", 0, 1], ["sq", 0], ["const"]], 2, (-3.0, 3.0)),
     "exp3": ([["exprate", 0], ["exprate", 1], ["exprate", 2]], 3, (0.125, 2.0)),
+    "exp1": ([["expdecay", 0]], 1, (0.5, 6.0)),          # a single basis function (M = 1)
 }
 
 # exactly rank-deficient bases: (basis, nparams, range, a maximal set of independent columns)
@@ -81,7 +82,14 @@ def gen_problem(rng, scalar=None, family=None, N=None, S=None, ctor=None, weight
     else:
         basis, P, (lo, hi) = FAMILIES[family]
     M = len(basis)
-    N = N or rng.randint(M + 1, M + 6)
+    if N is None:
+        r = rng.random()
+        if r < 0.06 and family not in RANKDEF:
+            N = M                                   # square system: exact interpolation, zero residual
+        elif r < 0.12:
+            N = rng.choice([17, 33, 64, 65, 100])   # long: beyond any small block / chunk size
+        else:
+            N = rng.randint(M + 1, M + 6)
     ctor = ctor or rng.choice(["new", "mrhs", "new_parallel", "mrhs_parallel"])
     mr = ctor.startswith("mrhs")
     S = (S or rng.randint(1, 3)) if mr else 1
@@ -239,3 +247,38 @@ def synth_observations(rng, case, truth, noise=0.0, qbits=10):
         if o[0] == "obs":
             o[2] = Y
     return case
+
+
+def release_differences(suite, cases, results, workdir, timeout_ms=20000, every=1, with_index=False):
+    """the same cases through the release build of the harness (no debug assertions, no overflow checks). Returns the (case, release
+    result) pairs whose observable output differs from the dev profile's — the caller judges those with the same machinery as the
+    dev results (identical output needs no second judgement). Call logs of parallel problems are compared in canonical order."""
+    sel = [k for k in range(len(cases)) if k % every == 0]
+    rel = run_harness(build_harness("release"), suite, [cases[k] for k in sel], workdir, timeout_ms=timeout_ms, tag="rel")
+
+    def canon(c, r):
+        r = {k: v for k, v in r.items() if k != "profile"}
+        if "parallel" in str(c.get("ctor", "")) and isinstance(r.get("steps"), list):
+            st = []
+            for s_ in r["steps"]:
+                if isinstance(s_, dict) and "log" in s_:
+                    s_ = dict(s_, log=canon_log(s_["log"], True))
+                st.append(s_)
+            r["steps"] = st
+        return r
+    out = []
+    for k, rr in zip(sel, rel):
+        if canon(cases[k], rr) != canon(cases[k], results[k]):
+            out.append((k, cases[k], rr) if with_index else (cases[k], rr))
+    return out
+
+
+def with_release(suite, cases, results, workdir, timeout_ms=20000, every=1):
+    """cases / results extended by the release-profile runs that differ from the dev profile (marked "profile": "release"), so that
+    the caller's judgement loop covers them too; returns (cases, results, number of differing cases)"""
+    extra = release_differences(suite, cases, results, workdir, timeout_ms=timeout_ms, every=every)
+    cs, rs = list(cases), list(results)
+    for c, r in extra:
+        cs.append(dict(c, profile="release"))
+        rs.append(r)
+    return cs, rs, len(extra)
